@@ -31,13 +31,14 @@ def sym(i):
 def raw_strategy():
     lib = st.fixed_dictionaries({
         "soname": st.sampled_from([True, True, True, False]),
-        "defs": st.lists(st.integers(0, NSYM - 1), min_size=0, max_size=2),
+        "defs": st.lists(st.integers(0, NSYM - 1), min_size=0, max_size=2).filter(lambda l: True),
+        "ndefs_min1": st.sampled_from([True, True, True, False]),
         "dep": st.integers(0, 15),          # 0..4 -> depends on lib (index mod j) if j > 0
         "underlinked": st.sampled_from([False, False, False, True]),
         "weak_defs": st.booleans(),
     })
     obj = st.fixed_dictionaries({
-        "refs": st.lists(st.tuples(st.integers(0, NSYM - 1), st.sampled_from([False, False, True])).map(list),
+        "refs": st.lists(st.tuples(st.integers(0, 15), st.sampled_from([False, False, True])).map(list),
                          min_size=0, max_size=3),
         "defs": st.lists(st.integers(0, NSYM - 1), min_size=0, max_size=1),
         "define": st.sampled_from([False, False, False, True]),
@@ -68,6 +69,8 @@ def normalize(case):
     # Libraries: unique definitions inside a lib; dependency on an earlier lib.
     for j, lib in enumerate(libs):
         lib["defs"] = sorted(set(lib["defs"]))
+        if lib.pop("ndefs_min1") and not lib["defs"]:
+            lib["defs"] = [(3 * j + 1) % NSYM]
         d = lib.pop("dep")
         lib["dep"] = (d % j) if (j > 0 and d < 5) else None
         if lib["dep"] is not None and not libs[lib["dep"]]["defs"]:
@@ -83,7 +86,10 @@ def normalize(case):
         obj_defined |= set(o["defs"])
     for o in objs:
         refs, seen = [], set()
-        for s, weak in o["refs"]:
+        lib_syms = sorted(lib_defined)
+        for idx, weak in o["refs"]:
+            # Mostly aim references at symbols some library defines.
+            s = lib_syms[idx % len(lib_syms)] if (idx < 12 and lib_syms) else idx % NSYM
             if s in seen or s in o["defs"]:
                 continue
             if not weak and s not in lib_defined and s not in obj_defined and case["output"] != "shared":
@@ -186,6 +192,26 @@ def dup_path_domain(case):
     return any(len(v) == 2 for v in cls.values())
 
 
+KNOWN_REPEAT = "repeated-lib-later-no-as-needed-ignored"
+
+
+def repeat_domain_libs(case):
+    """Exact domain of the second known finding: a library named twice with the same path text,
+    the first time under --as-needed and a later time without it, that satisfies no non-weak
+    reference. The statement and GNU ld list it (it was linked without --as-needed); wild keeps
+    only the first mention's flags and drops it."""
+    _, occ, satisfies, _ = model_needed(case)
+    first = {}
+    out = set()
+    for j, an, sp in occ:
+        key = (j, "typed" if sp == "path" else "searched")
+        if key not in first:
+            first[key] = an
+        elif first[key] and not an and j not in satisfies:
+            out.add(j)
+    return out
+
+
 def build_inputs(case, d):
     libs, objs = case["libs"], case["objs"]
     for j, lib in enumerate(libs):
@@ -243,7 +269,7 @@ class C37(Check):
             "output; non-trivial = at least one as-needed library is needed and one is not, or an as-needed library is "
             "referenced only weakly or only from another library; distinct by the command line + reference table")
     assumptions = ["GNU ld 2.40 is the reference", "libraries without soname are named by the path given on the command line"]
-    quick_cases = 400
+    quick_cases = 320
     thorough_cases = 10000
 
     def strategy(self, tier):
@@ -296,7 +322,7 @@ class C37(Check):
                 "key": " ".join(args) + "|" + ";".join(f"{o['defs']}{o['refs']}" for o in objs) + "|" +
                 ";".join(f"{l['defs']}{l['dep']}{int(l['soname'])}" for l in libs)}
 
-        r = tools.link("ld", [*args, "-o", "r.out"], cwd=d)
+        r = symgen.link("ld", [*args, "-o", "r.out"], cwd=d)
         if r.timed_out:
             raise Inconclusive("ld timed out")
         if r.rc != 0:
@@ -311,7 +337,7 @@ class C37(Check):
                               "libfirst" if last_obj > first_lib else "other")
             classes.append(cls)
             raise OracleSplit(f"ld {ld_needed} != model {exp} [{cls}] for {' '.join(args)}")
-        w = tools.link("wild", [*args, "-o", "w.out"], cwd=d)
+        w = symgen.link("wild", [*args, "-o", "w.out"], cwd=d)
         if w.timed_out:
             raise Inconclusive("wild timed out")
         if symgen.wild_crashed(w):
@@ -329,7 +355,9 @@ class C37(Check):
         return info
 
     def excluded_by_construction(self, case):
-        return KNOWN_DUP if dup_path_domain(case) else None
+        if dup_path_domain(case):
+            return KNOWN_DUP
+        return KNOWN_REPEAT if repeat_domain_libs(case) else None
 
     @staticmethod
     def _sig(case, got, exp, libs, needed, occ, satisfies, weak_only, lib_only):
@@ -358,6 +386,8 @@ class C37(Check):
                 return "extra:as-needed-lib-referenced-from-lib-only"
             return "extra:unneeded-as-needed-lib"
         if missing and not extra:
+            if set(missing) <= repeat_domain_libs(case):
+                return KNOWN_REPEAT
             forced = {j for j, an, _ in occ if not an}
             return "missing:no-as-needed-lib" if set(missing) & forced else "missing:needed-as-needed-lib"
         return "needed-set"
